@@ -117,3 +117,7 @@ def run(tier):
         "the digest covers every callback, request, answer, resulting state key and active/resumable flags of every explored execution",
     ]
     return chk
+
+
+def replay(path):
+    return en.replay(path)
